@@ -1,5 +1,6 @@
 import DM.Drv.Util
 import DM.Model.Placement
+import DM.Model.Fast
 namespace DM.Drv
 open DM.Model
 
